@@ -492,6 +492,180 @@ class Lane:
         return trouble
 
 
+# ---------------------------------------------------------------------------------------------------------------
+# Idle-timeout family: abandoned connections must not make the daemon shut down under a session that is still running
+# ---------------------------------------------------------------------------------------------------------------
+# A daemon started with `--idle-timeout T` leaves its accept loop when no connection arrived for T seconds AND no session
+# is in service.  Scenario: k connections that go away (before / after a valid header), then j well-formed sessions of a
+# module that runs several times longer than T, with nothing else connecting meanwhile.  Oracle: each of the j clients gets
+# the standalone result (which implies that the daemon lived until it had sent the EXIT frame).  k = 0 is the control.
+# Not flagged: the daemon exiting once it is really idle (that is what the option is for); an attempt in which a client
+# received nothing at all (daemon idled out before it was reached, or the machine is overloaded) is repeated, not judged.
+
+LONG_SRC = """
+let mut ACC: int = 7
+fn spin(n: int) -> int {
+    let mut i: int = 0
+    while (< i n) {
+        set ACC (%% (+ (* ACC 31) i) 1000003)
+        set i (+ i 1)
+    }
+    return ACC
+}
+shadow spin { assert true }
+fn main() -> int {
+    (println "W5:start")
+    let mut r: int = 0
+    while (< r 10) {
+        (println (+ "W5:round " (+ (int_to_string r) (+ " acc=" (int_to_string (spin %d))))))
+        set r (+ r 1)
+    }
+    (println "W5:done")
+    return 0
+}
+shadow main { assert true }
+"""
+
+# abandoned-connection kinds: the first group never delivers a valid header, the second does
+ABORT_KINDS = ("connect_close", "short_header", "wrong_version", "garbage", "len_over_max",
+               "header_only", "trunc_half", "disc_before", "slow_loris_abandon")
+
+
+class LongModule:
+    """The long-running module, sized so that a standalone run (asan flavor, this machine, now) takes >= `want` seconds."""
+
+    def __init__(self, ctx, fl, sc):
+        self.ctx, self.fl, self.sc = ctx, fl, sc
+        self.n = 0
+        self.lock = threading.Lock()
+
+    def build(self, n):
+        src = self.sc.file("idle/long_%d.nano" % n, LONG_SRC % n)
+        out = os.path.join(self.sc.path, "idle", "long_%d.nvm" % n)
+        c = sh([self.fl.nano_virt, src, "--emit-nvm", "-o", out], cpu=60, san=True)
+        self.ctx.require(c.rc == 0 and os.path.exists(out), "nano_virt failed on the long-running module: %s" % c.brief())
+        t0 = time.monotonic()
+        a = sh([self.fl.nano_vm, out], cpu=600, wall=1200, san=True)
+        dur = time.monotonic() - t0
+        self.ctx.require(not a.timeout and not a.sig and not a.sanitizer_report() and a.out.endswith(b"W5:done\n"),
+                         "standalone run of the long-running module ended abnormally: %s" % a.brief())
+        return dict(n=n, blob=open(out, "rb").read(), out=a.out, err=a.err, rc=a.rc, standalone_s=dur)
+
+    def calibrate(self, want):
+        with self.lock:
+            n = max(self.n * 2, 20000)
+            while True:
+                m = self.build(n)
+                if m["standalone_s"] >= want:
+                    self.n = n
+                    self.cur = m
+                    return m
+                # aim a little beyond the target; at least double
+                n = max(n * 2, int(n * 1.3 * want / max(m["standalone_s"], 0.01)))
+                self.ctx.require(n < 2000000000, "cannot size the long-running module")
+
+
+def idle_scenario(ctx, fl, sc, no, T, aborts, j, longmod, good, ist):
+    """One scenario on its own daemon.  Returns nothing; records into ist (under _VLOCK) and reports violations."""
+    k = len(aborts)
+    ddir = sc.sub("idle%03d" % no)
+    logbase = os.path.join(ddir, "san")
+    desc = "daemon --idle-timeout %d; %s; then %d long session(s), nothing else connecting" % (
+        T, ("abandoned connections: " + " ".join(aborts)) if aborts else "no abandoned connection (control)", j)
+    for attempt in range(4):
+        m = longmod.cur
+        dm = vc.Daemon(fl.nano_vmd, ddir, {
+            "ASAN_OPTIONS": "log_path=%s:detect_leaks=0:exitcode=97:abort_on_error=0:allocator_may_return_null=1:"
+                            "hard_rss_limit_mb=3072:detect_stack_use_after_return=0" % logbase,
+            "UBSAN_OPTIONS": "print_stacktrace=1:halt_on_error=1:exitcode=97:log_path=%s" % logbase,
+            "PATH": fl.bin + os.pathsep + os.environ.get("PATH", "/usr/bin:/bin"),
+        }, args=("--foreground", "--verbose", "--idle-timeout", str(T)))
+        try:
+            if not dm.start():
+                continue                                            # e.g. idled out between start and our first PING
+            for i, kind in enumerate(aborts):
+                vc.misbehave(ddir, kind, good["count"]["blob"], ctx.rng("idle-abort", no, attempt, i), 20.0)
+            tmo = max(180.0, 40.0 * m["standalone_s"])
+            if j == 1:
+                reps = [vc.exec_module(ddir, m["blob"], tmo)]
+            else:
+                reps, _, _ = vc.run_wave(ddir, [m["blob"]] * j, mode="barrier", timeout=tmo, sample=False)
+            alive_after = dm.alive()
+            durs = [(r.t_end - r.t_release) if (r.t_release and r.t_end) else 0.0 for r in reps]
+            if any(r.nbytes == 0 or r.timeout for r in reps):
+                # not served at all / watchdog: the daemon had legitimately idled out before it was reached, or overload
+                with _VLOCK:
+                    ist["not_served_retries"] += 1
+                continue
+            bad = [r for r in reps if (r.out, r.err_text(), r.exit_code) != (m["out"], m["err"], m["rc"])]
+            if not bad and min(durs) < 2.0 * T:
+                # the sessions were too short to outlive the idle timeout (machine got faster since calibration): resize, repeat
+                with _VLOCK:
+                    ist["resized"] += 1
+                longmod.calibrate(2.0 * m["standalone_s"])
+                continue
+            with _VLOCK:
+                ist["scenarios"] += 1
+                ist["sessions"] += j
+                ist["with_aborts" if k else "control"] += 1
+                ist["by_kind"].update({a: ist["by_kind"].get(a, 0) + 1 for a in aborts})
+                ist["min_session_s"] = round(min([ist["min_session_s"]] + durs), 2)
+                if len(ist["samples"]) < 4:
+                    ist["samples"].append({"idle_timeout_s": T, "abandoned": list(aborts), "long_sessions": j,
+                                           "session_s": [round(d, 2) for d in durs], "daemon_alive_after": alive_after})
+            if bad:
+                r = bad[0]
+                tail = dm.stderr_text(1500)
+                _violation(ctx, "wellformed!=standalone|long-session|idle-timeout-daemon|abandoned=%d,sessions=%d" % (k, j),
+                           "%s\na long-running well-formed session did not get the standalone result: stdout %d of %d bytes, "
+                           "stderr %r (want %r), exit %r (want %r); session lasted %.1f s (standalone %.1f s); daemon alive afterwards: %s "
+                           "(rc=%s)\ndaemon log:\n%s"
+                           % (desc, len(r.out), len(m["out"]), r.err_text()[:200], m["err"][:200], r.exit_code, m["rc"],
+                              durs[reps.index(r)], m["standalone_s"], alive_after, dm.returncode(), tail),
+                           {"long.nvm": m["blob"], "got.stdout": r.out, "expected.stdout": m["out"], "daemon.log": tail})
+            log = ""
+            for f in sorted(os.listdir(ddir)):
+                if f.startswith("san."):
+                    log += open(os.path.join(ddir, f), errors="replace").read()
+            if log.strip():
+                _violation(ctx, "sanitizer-report|" + str(crash_signature(log)), "sanitizer report of the idle-timeout daemon (%s)\n%s"
+                           % (desc, log[:4000]), {"sanitizer.log": log})
+            if not bad and k == 0:
+                # the legitimate case, observed (never flagged): left alone, the daemon shuts down by itself after the timeout
+                t0 = time.monotonic()
+                while dm.alive() and time.monotonic() - t0 < T + 20:
+                    time.sleep(0.05)
+                with _VLOCK:
+                    if not dm.alive() and dm.returncode() == 0:
+                        ist["idle_exits_observed"] += 1
+            return
+        finally:
+            dm.stop(grace=0.5)
+    with _VLOCK:
+        ist["gave_up"] += 1
+
+
+def idle_family(ctx, fl, sc, good, ist):
+    T = 1
+    longmod = LongModule(ctx, fl, sc)
+    longmod.calibrate(4.0 * T)
+    ist["long_module_iterations"] = longmod.cur["n"] * 10
+    ist["long_module_standalone_s"] = round(longmod.cur["standalone_s"], 2)
+    plans = [(T, (), 1), (T, ("connect_close",), 1)]
+    rng = ctx.rng("idle-plans")
+    early = ABORT_KINDS[:5]
+    if ctx.quick():
+        plans += [(T, (rng.choice(early[1:]),), 1), (T, (rng.choice(early), rng.choice(ABORT_KINDS)), 2)]
+    else:
+        plans += [(T, (a,), 1) for a in ABORT_KINDS[1:]]
+        plans += [(T, (rng.choice(early), rng.choice(ABORT_KINDS)), 2) for _ in range(3)]
+        plans += [(T, tuple(rng.choice(ABORT_KINDS) for _ in range(3)), 3), (T, tuple(rng.choice(early) for _ in range(3)), 3),
+                  (T, tuple(rng.choice(ABORT_KINDS) for _ in range(2)), 1), (2, ("connect_close",), 1), (2, (), 1)]
+    jobs = [(i,) + p for i, p in enumerate(plans)]
+    pmap(lambda jb: idle_scenario(ctx, fl, sc, jb[0], jb[1], jb[2], jb[3], longmod, good, ist), jobs, workers=4)
+    ist["planned"] = len(plans)
+
+
 def make_sequences(ctx, n, alphabet, weights):
     seqs = []
     for s in range(n):
@@ -630,7 +804,16 @@ def _run(ctx, fl, sc, lanes):
         except BaseException as ex:
             errs.append(ex)
 
-    ths = [threading.Thread(target=guarded, args=(i,)) for i in range(nl)]
+    ist = {"scenarios": 0, "sessions": 0, "with_aborts": 0, "control": 0, "by_kind": {}, "min_session_s": 1e9, "samples": [],
+           "not_served_retries": 0, "resized": 0, "gave_up": 0, "idle_exits_observed": 0}
+
+    def idle_guarded():
+        try:
+            idle_family(ctx, fl, sc, good, ist)
+        except BaseException as ex:
+            errs.append(ex)
+
+    ths = [threading.Thread(target=guarded, args=(i,)) for i in range(nl)] + [threading.Thread(target=idle_guarded)]
     for t in ths:
         t.start()
     for t in ths:
@@ -643,9 +826,13 @@ def _run(ctx, fl, sc, lanes):
     ctx.require(ctx.violations or stats["sequences"] >= len(alphabet) + 20, "too few sequences executed (%d)" % stats["sequences"])
     ctx.require(all(a in stats["symbols"] for a in alphabet), "not every symbol of the alphabet was executed")
     ctx.require(ctx.violations or stats["wellformed_compared"] >= 50, "too few well-formed clients compared (%d)" % stats["wellformed_compared"])
+    ctx.require(ctx.violations or (ist["with_aborts"] >= 2 and ist["control"] >= 1),
+                "idle-timeout family: too few scenarios in which the long sessions outlived the timeout (%s)" % ist)
+    ctx.require(ctx.violations or ist["idle_exits_observed"] >= 1,
+                "idle-timeout family: the control daemon never shut down by itself, so the idle timeout was not shown to be armed")
     samples = [{"sequence": list(seq), "connections": conc} for _, seq, conc in seqs[:5]]
     return ctx.finish({
-        "evaluations": stats["sequences"] + stats["bursts"],
+        "evaluations": stats["sequences"] + stats["bursts"] + ist["scenarios"],
         "distinct_nontrivial": len(stats["distinct"]),
         "rule": "distinct symbol sequences (tuples over the alphabet below, length 1..12) executed against a live daemon and followed "
                 "by the post-sequence checks; every sequence contains at least one client behaviour and is followed by a liveness, "
@@ -662,6 +849,7 @@ def _run(ctx, fl, sc, lanes):
         "reruns_after_client_trouble": stats["reruns"],
         "hostile_modules": {k: len(v) for k, v in sorted(hostile.items())},
         "fuel": FUEL, "daemon_lanes": nl,
+        "idle_timeout_family": ist,
         "samples": samples,
     }, assumptions=[
         "expected values of well-formed modules come from `nano_vm x.nvm` (asan flavor), also run with the same NLVERIF_FUEL to show "
@@ -671,5 +859,8 @@ def _run(ctx, fl, sc, lanes):
         "a session that stays to listen must end with an error reply, an exit code or a closed connection; a client-side watchdog "
         "(60 s) is treated as inconclusive after one re-run, never as a violation",
         "SHUTDOWN is not part of the alphabet (it legitimately stops the daemon)",
+        "idle-timeout family: the long module is sized by wall-clock calibration (standalone >= 4x the timeout) and a scenario only "
+        "counts if every long session lasted >= 2x the timeout; a daemon that exits when no session is in service is correct and "
+        "never flagged; attempts in which a client received no byte at all are repeated, not judged",
         "hostile modules are built here from a compiler-produced image (fixed edits + recomputed CRC32); the C13 mutator is not used",
     ])
